@@ -13,7 +13,7 @@ def tail(s, n=2500):
 
 def run(ctx):
     ctx.rule = ("(a) decision function: all combinations of offer/existing fields over small code sets, run on the real "
-                "Negotiation.compareOfferAndExisting and on the translated function; (b) traces: 24 scripted + seeded schedules of two real "
+                "Negotiation.compareOfferAndExisting and on the translated function; (b) traces: 25 scripted + seeded schedules of two real "
                 "Tubs (lookups with 1-3 hints, block deliveries, asynchronous cuts, close notifications, restarts, forced connector "
                 "time-outs, passage of virtual time up to the next armed timer (connector timers and the listening ends' negotiation "
                 "timers fire), instant retries armed for the next errback, handle-old set on the master); after every step the real "
@@ -36,15 +36,14 @@ def run(ctx):
         "timer fires AT its deadline), the harness advances the real clock in the same way; the model's Timeout step is a forced "
         "early firing of the connector's timer (DelayedCall.reset(0))",
         "handle-old-duplicate-connections is an input of the model's master step (passed with the age of the existing Broker to "
-        "the translated decision function); between two modern Tubs that branch is not reachable (not proved), the translated "
-        "function's old-peer theorems cover it",
-        "'not displaced by a redundant attempt' is proved for the translated decision function and for one step of the model from "
-        "ANY state given the offer's content; that every in-flight offer of the connected incarnation has that content in every "
-        "reachable state is not proved (false after a master restart: known finding) -- the `redundant` / `one-sided-cut` oracle "
-        "families check it on the real Tubs; quiescence requires both ends to have seen every loss (a half-open connection is "
-        "not quiescent)",
-        "lookups queued before Tub.startService() are outside the Coq model: that path is covered by the oracle (prestart family) "
-        "and by a translated shape fact on the relay closure; a third Tub exists only in the oracle runs",
+        "the translated decision function); it is PROVED unreachable between two modern Tubs (C14_handle_old_unreachable); the "
+        "translated function's old-peer theorems cover pre-0.2.0 peers",
+        "quiescence requires both ends to have seen every loss (a half-open connection is not quiescent)",
+        "a third Tub / several concurrent outbound negotiations, and the lookups queued before Tub.startService(), are two small "
+        "layered models (lib/ConvergeLayers.v) with translated flags (offer dict built per Negotiation; relay bound to the Deferred of "
+        "its own iteration), compared with real Negotiation objects / real Tubs; they are composed with the two-Tub model through "
+        "their statements (the hello carries the dialler's record of THAT peer; a queued Deferred has exactly one lookup, made at the "
+        "start), not as one product state",
     ]
     ok, log = ctx.coq_build(["props/C14.vo"])
     from harness import c14_impl as impl
@@ -61,6 +60,11 @@ def run(ctx):
     # (b) trace validation
     if model_ok:
         correspond_traces(ctx, impl)
+    # (b') the layered models: offers of concurrent outbound negotiations; relays of queued lookups
+    layers_ok = model_ok
+    if model_ok:
+        layers_ok, _ = ctx.coq_build(["lib/ConvergeLayers.vo"])
+    correspond_layers(ctx, impl, layers_ok)
     # (c) direct oracle
     oracle.run_all(ctx)
     if not ok:
@@ -203,6 +207,7 @@ def correspond_traces(ctx, impl):
             ctx.fail("oracle/exception-escaped", "an exception escaped from the real Tubs while running a scripted schedule: %r" % (e,),
                      replay=dict(tb=traceback.format_exc()))
             fixed = []
+    ctx.extra["model_witness_displaced_on_real_tubs"] = repr(impl.WITNESS_DISPLACED)
     for groups in fixed:
         ctx.case([[g[0] for g in groups]], nontrivial=True)
         ctx.hist("trace_style", "scripted")
@@ -247,3 +252,109 @@ def report_trace_mismatch(ctx, groups, gi):
     ctx.fail("correspondence/trace", "model (lib/Converge.v) and the real Tubs disagree after step %d (%r) of a schedule: "
              "real state %r, model state %r; schedule so far %r" % (gi, groups[gi][2], groups[gi][1], mobs, [g[0] for g in groups[:gi + 1]]),
              replay=dict(ops=[g[0] for g in groups[:gi + 1]], real=groups[gi][1], model=mobs), has_input=False)
+
+
+# ------------------------------------------------------------------------------------------------
+LREQ = ["Verif.lib.PyLite", "Verif.gen.ConvergeGen", "Verif.lib.ConvergeLayers"]
+
+
+def correspond_layers(ctx, impl, model_ok):
+    """lib/ConvergeLayers.v against the real code.
+    (a) offers: real Negotiation objects of one real Tub, created for 2-3 targets (the peer over several hints, a third
+        Tub with another / no history) and asked for their hello in every interleaving of a random script; ORACLE (with
+        input): every hello carries the last-connection record of ITS OWN target; correspondence: = the model's o_out.
+    (b) prestart: k lookups queued before startService, the start, late lookups, everything delivered: which Deferreds
+        fired = the model's p_fired (the oracle for this path is the prestart family of run_all)."""
+    from harness.implenv import quiet
+    rng = ctx.rng
+    irs = {"none": 0, "irAAAA": 1, "irBBBB": 2, "irCCCC": 3}
+    scripts = [([("new", 0), ("new", 1), ("send", 0), ("send", 1)], {0: ("irAAAA", 3)}),
+               ([("new", 0), ("new", 0), ("new", 1), ("send", 1), ("send", 0), ("send", 1)], {0: ("irAAAA", 2), 1: ("irBBBB", 7)}),
+               ([("new", 1), ("new", 0), ("send", 1), ("new", 2), ("send", 0), ("send", 2)], {0: ("irCCCC", 1)})]
+    for i in range(ctx.n(40, 600)):
+        nt = rng.randint(2, 3)
+        recs = {t: (rng.choice(["irAAAA", "irBBBB", "irCCCC"]), rng.randint(1, 9)) for t in range(nt) if rng.random() < 0.6}
+        evs, made = [], 0
+        for j in range(rng.randint(3, 9)):
+            if made == 0 or rng.random() < 0.45:
+                evs.append(("new", rng.randrange(nt)))
+                made += 1
+            else:
+                evs.append(("send", rng.randrange(made)))
+        scripts.append((evs, recs))
+    lines, reals = [], []
+    for evs, recs in scripts:
+        with quiet():
+            try:
+                out = impl.offers_case(evs, recs)
+            except Exception as e:
+                import traceback
+                ctx.fail("oracle/exception-escaped", "driving real Negotiation objects %r raised %r" % (evs, e),
+                         replay=dict(events=evs, records=recs, tb=traceback.format_exc()))
+                continue
+        ctx.case(["offers", evs, sorted(recs.items())], nontrivial=len({e[1] for e in evs if e[0] == "new"}) > 1)
+        ctx.hist("layer", "offers")
+        tgts = [e[1] for e in evs if e[0] == "new"]
+        for (n, got) in out:
+            want = recs.get(tgts[n], ("none", 0))
+            if got != want:
+                ctx.fail("oracle/hello-carries-another-targets-record",
+                         "one Tub, outbound negotiations set up for targets %r (slave_table records %r): the hello of negotiation #%d "
+                         "(target %d) carries last-connection %r, the record of its own target is %r; script %r"
+                         % (tgts, recs, n, tgts[n], got, want, evs), replay=dict(events=evs, records=recs, sent=out))
+                break
+        reals.append([[n, irs.get(g[0], 9), g[1]] if g else [n, -1, -1] for (n, g) in out])
+        nt = max(tgts) + 1
+        rec = "(fun t => nth t %s (0, 0)%%Z)" % coq_list(["(%s, %s)" % (coq_Z(irs[recs[t][0]]), coq_Z(recs[t][1])) if t in recs
+                                                          else "(0%Z, 0%Z)" for t in range(nt)])
+        cevs = coq_list([("ONew %d" % e[1]) if e[0] == "new" else ("OSend %d" % e[1]) for e in evs])
+        lines.append("map (fun p => [Z.of_nat (fst p); fst (snd p); snd (snd p)]) (o_out (orun offer_dict_fresh %s %s))" % (rec, cevs))
+    # (b)
+    pcases, preal = [], []
+    for who in ("M", "S"):
+        for k in (1, 2, 3, 4):
+            for late in (0, 1):
+                with quiet():
+                    try:
+                        counts, detail = impl.prestart_relay_case(who, k, late)
+                    except Exception as e:
+                        import traceback
+                        ctx.fail("oracle/exception-escaped", "prestart relay case %r raised %r" % ((who, k, late), e),
+                                 replay=dict(case=(who, k, late), tb=traceback.format_exc()))
+                        continue
+                ctx.case(["prestart-relay", who, k, late], nontrivial=k > 1)
+                ctx.hist("layer", "prestart")
+                pcases.append((who, k, late))
+                preal.append(counts)
+    if not model_ok:
+        return
+    try:
+        vals = ctx.coq_eval("C14_layers_offers", "\n".join("Eval vm_compute in %s." % l for l in lines) + "\n", requires=LREQ) if lines else []
+        plines = []
+        for (who, k, late) in pcases:
+            evs = ["PGet"] * k + ["PStart"] + ["PGet"] * late + ["PAnswer %d" % i for i in range(k + late)]
+            plines.append("(let s := prun relay_binds_own_deferred %s in map (fun o => if nin o (p_fired s) then 1 else 0)%%Z (seq 0 (p_no s)))"
+                          % coq_list(evs))
+        pvals = ctx.coq_eval("C14_layers_prestart", "\n".join("Eval vm_compute in %s." % l for l in plines) + "\n", requires=LREQ) if plines else []
+    except common.CoqEvalError as e:
+        ctx.fail("correspondence-broken", "lib/ConvergeLayers.v could not be evaluated: " + str(e)[-1500:], has_input=False)
+        return
+    nbad = 0
+    for (evs, recs), real, mv in zip(scripts, reals, vals):
+        ctx.traces += 1
+        if [list(r) for r in real] != [list(m) for m in mv]:
+            nbad += 1
+            if nbad <= 2:
+                ctx.fail("correspondence/offers", "model (lib/ConvergeLayers.v, offers) and the real Negotiation objects disagree on script %r "
+                         "with records %r: real hellos %r, model %r" % (evs, recs, real, mv),
+                         replay=dict(events=evs, records=recs, real=real, model=mv), has_input=False)
+    for case, real, mv in zip(pcases, preal, pvals):
+        ctx.traces += 1
+        if list(real) != list(mv):
+            nbad += 1
+            if nbad <= 4:
+                ctx.fail("correspondence/prestart-relay", "model (lib/ConvergeLayers.v, prestart) and the real Tub disagree on (who, queued, "
+                         "late)=%r: each caller's Deferred fired %r times on the real Tub, the model says %r" % (case, real, mv),
+                         replay=dict(case=case, real=real, model=mv), has_input=False)
+    ctx.extra["layer_cases"] = len(scripts) + len(pcases)
+    ctx.extra["layer_disagreements"] = nbad
